@@ -1,10 +1,10 @@
-\* hashdb, exhaustive: 2 tries of height 2 (4 keys, 7 paths each), <= 3 updates from any known state
+\* hashdb, exhaustive (thorough): 2 tries of height 2 (4 keys, 7 paths each), <= 3 updates from any known state
 \* (forks are free: the database does not track state roots), Commit / cache warm-up / restart anywhere
 CONSTANTS
   H = 2
   MaxV = 1
   Tries = {"ct", "s1"}
-  MaxUpdates = 4
+  MaxUpdates = 3
   MaxRestarts = 2
   UpdKeys = 4
   Bug = "none"
